@@ -377,8 +377,12 @@ def run(ctx):
                 if n.get("k") == "mcall" and n["m"] == "next_number":
                     return True
                 b = local_of(n, NO_T) if n.get("k") == "path" else None
-                if b is not None and b != vb and reads_number(hirq.single_def(fn, b), depth - 1):
-                    return True
+                if b is not None and b != vb:
+                    info = fn.bindings().get(b) or {}
+                    # `let x = e;` or the payload of a pattern: `let Ok(x) = e else ..`, `if let Ok(x) = e`, `match e { Ok(x) => .. }`
+                    src = hirq.single_def(fn, b) or info.get("init") or info.get("scrutinee")
+                    if reads_number(src, depth - 1):
+                        return True
             return False
         from_number = reads_number(d) and len([a for a in fn.assignments_to(vb) if not any(x is m for x in fn.ancestors(a))]) == 0
         blk = [a for a in fn.ancestors(m) if a.get("k") == "block"][0]
